@@ -2,5 +2,6 @@ package main
 
 import "github.com/xuperchain/xupercore/bcs/ledger/xledger/state/utxo"
 
-// lockHeld reports whether the SpinLock's internal mutex is held right now (probed on the real mutex).
-func lockHeld(sp *utxo.SpinLock) bool { return false }
+// lockHeld reports whether the SpinLock's internal mutex is held right now (probed on the real
+// mutex through the verif export, nothing is assumed about the code).
+func lockHeld(sp *utxo.SpinLock) bool { return utxo.VerifLockHeld(sp) }
